@@ -115,6 +115,17 @@ pub fn polys(quick: bool) -> Vec<(Poly, bool)> {
         let touch = ring_contacts(&p.holes[0], &p.shell).map_or(true, |c| !c.is_empty());
         v.push((p, touch));
     }
+    // two holes (free, touching the shell, touching each other) in a 6x4 shell
+    for p in super::c05::poly_family(quick).into_iter().filter(|p| p.holes.len() == 2).step_by(if quick { 2 } else { 1 }) {
+        let mut touch = false;
+        for (i, h) in p.holes.iter().enumerate() {
+            touch |= ring_contacts(h, &p.shell).map_or(true, |c| !c.is_empty());
+            for g in p.holes.iter().skip(i + 1) {
+                touch |= ring_contacts(h, g).map_or(true, |c| !c.is_empty());
+            }
+        }
+        v.push((p, touch));
+    }
     v
 }
 
@@ -158,6 +169,36 @@ pub fn run(mut run: Run) -> i32 {
             true,
             off,
         );
+        // stitch(constrained Delaunay) has the same area and the same exterior on the half-step lattice (touching rings included)
+        {
+            acc.evals += 1;
+            let r = guard(|| TriangulateDelaunay::constrained_triangulation(&pg, DelaunayTriangulationConfig::default()).map(|t| t.stitch_triangulation()));
+            match r {
+                Ok(Ok(Ok(mp))) => {
+                    let a = mp.unsigned_area();
+                    let want = poly_area(p).f();
+                    let mut bad = (a - want).abs() > 1e-6;
+                    if !bad && off == 0.0 {
+                        use geo::CoordinatePosition;
+                        for kx in -1..=11i64 {
+                            for ky in -1..=9i64 {
+                                let q = HP::new(kx as i128, ky as i128, 2);
+                                let c = Coord { x: kx as f64 / 2.0, y: ky as f64 / 2.0 };
+                                let want = locate(&AG::Polys(vec![p.clone()]), &q);
+                                let got_out = mp.coordinate_position(&c) == geo::coordinate_position::CoordPos::Outside;
+                                if (want == E) != got_out {
+                                    bad = true;
+                                }
+                            }
+                        }
+                    }
+                    if bad {
+                        acc.viol(format!("stitch_triangulation(constrained Delaunay) differs from the polygon (area or exterior), holes={} touching={}", p.holes.len(), touch), idx, || json!({"polygon": format!("{:?}", pg), "stitched": format!("{:?}", mp), "area": a, "expected_area": want}));
+                    }
+                }
+                other => acc.viol(format!("stitch_triangulation(constrained Delaunay) failed/panicked, holes={} touching={}", p.holes.len(), touch), idx, || json!({"polygon": format!("{:?}", pg), "result": format!("{:?}", other).chars().take(300).collect::<String>()})),
+            }
+        }
         // stitch(earcut) has the same area and the same location on the half-step lattice
         if !touch {
             acc.evals += 1;
@@ -209,7 +250,7 @@ pub fn run(mut run: Run) -> i32 {
                     h.iter().any(|&v| on_edge_interior(v, &p.shell)) || p.shell.iter().any(|&v| on_edge_interior(v, h))
                 });
                 let kind = if !*touch { "rings disjoint" } else if tj { "ring vertex in the interior of another ring's edge" } else { "rings share a vertex" };
-                acc.viol(format!("monotone_subdivision panic (holes={}, {})", p.holes.len(), kind), idx, || json!({"polygon": format!("{:?}", pg), "panic": e}));
+                acc.viol(format!("monotone_subdivision panic ({})", kind), idx, || json!({"polygon": format!("{:?}", pg), "panic": e}));
                 return;
             }
         };
